@@ -443,7 +443,9 @@ class NpProxy(object):
             if ENG.active or is_sym(obj):
                 return obj
         if is_sym(obj):
-            return self.array(obj, dtype=dtype, copy=False)
+            if dtype is not None and not _floaty(dtype) and dtype is not object:
+                return objarr(np.array(obj, dtype=object)).astype(dtype)
+            return np.array(obj, dtype=object)
         r = np.asarray(obj, dtype=dtype, **k)
         if ENG.active and r.dtype != object and np.issubdtype(r.dtype, np.floating):
             return objarr(r)
